@@ -274,6 +274,22 @@ Proof.
   - intros Phi (Hs & _ & _) r d S sigma K T. split; [apply bs_parity | apply bs_parity_forward]; exact Hs.
 Qed.
 
+Lemma vg_is_cgmy_all : forall sigma nu theta CG GY MY,
+  0 < sigma -> 0 < nu ->
+  (forall x, 0 < 1 + x / vgR_lambda_m sigma nu theta -> 0 < 1 - x / vgR_lambda_p sigma nu theta ->
+     cgmy_exponent (vgR_c sigma nu theta) (vgR_lambda_m sigma nu theta) (vgR_lambda_p sigma nu theta) 0 CG GY MY x
+     = vg_exponent sigma nu theta x - theta * x)
+  /\ (forall a sd r d ls t u,
+     0 < 1 + u / vgR_lambda_m sigma nu theta -> 0 < 1 - u / vgR_lambda_p sigma nu theta ->
+     0 < 1 + 1 / vgR_lambda_m sigma nu theta -> 0 < 1 - 1 / vgR_lambda_p sigma nu theta ->
+     exp_mgf (levy_kappa a sd (cgmy_exponent (vgR_c sigma nu theta) (vgR_lambda_m sigma nu theta) (vgR_lambda_p sigma nu theta) 0 CG GY MY)) r d ls t u
+     = exp_mgf (levy_kappa a sd (vg_exponent sigma nu theta)) r d ls t u).
+Proof.
+  intros sigma nu theta CG GY MY Hs Hn. split.
+  - intros x H1 H2. apply vg_cgmy_exponent; assumption.
+  - intros. apply vg_cgmy_same_law; assumption.
+Qed.
+
 Lemma coefficients_all : forall uninit k a b, b <> a ->
   (forall c d, is_RInt (fun y => exp y * cosk k a b y) c d (cos_xi k a b c d))
   /\ (forall c d, is_RInt (fun y => cosk k a b y) c d (cos_psi uninit k a b c d))
